@@ -1027,7 +1027,12 @@ impl Lowerer {
                 if let Some((cid, _)) = input_columns.get(&name) {
                     *cid
                 } else {
-                    panic!("cannot find cid by id={id} and name={name:?}");
+                    // e.g. a column that the relation's declaration excludes (`select !{b}` in a `let`)
+                    let name = name.as_single().and_then(|n| n.clone()).unwrap_or_default();
+                    return Err(Error::new_simple(format!(
+                        "cannot find column `{name}` in this relation"
+                    ))
+                    .with_span(self.root_mod.span_map.get(&id).cloned()));
                 }
             }
             None => {
